@@ -107,6 +107,8 @@ def g_oev(r):
         return '(OTSetUp %d)' % (r[1] + 1)
     if kind == 'testTearDown':
         return '(OTTearDown %d)' % (r[1] + 1)
+    if kind == 'stale':
+        return '(OTSetUp 9999)'          # a hook of a layer object that no longer belongs to the program: never expected
     if kind in PHASE:
         return '(OPhase %d %d %d)' % (r[1], PHASE[kind], r[2] if len(r) > 2 else 0)
     return None
@@ -204,7 +206,7 @@ def gen_layers(rng, n, p_hook=0.8, faults=True):
             hooks['testSetUp'] = ['ok']
         if rng.random() < 0.6:
             hooks['testTearDown'] = ['ok']
-        layers.append({'name': names[i], 'bases': bases, 'kind': rng.choice(['class', 'class', 'instance', 'instance', 'falsy']), 'hooks': hooks})
+        layers.append({'name': names[i], 'bases': bases, 'kind': rng.choice(['class', 'class', 'instance', 'instance', 'falsy', 'alias']), 'hooks': hooks})
     return layers
 
 
